@@ -29,6 +29,7 @@ import (
 	"math/rand"
 	"reflect"
 	"regexp"
+	"runtime"
 	"strings"
 	"time"
 	"unicode/utf8"
@@ -43,8 +44,14 @@ func init() {
 		if err := json.Unmarshal(arg, &doc); err != nil {
 			return nil, err
 		}
+		var m0, m1 runtime.MemStats
+		runtime.GC()
+		runtime.ReadMemStats(&m0)
+		t0 := time.Now()
 		_, err := avro.SchemaFromString(doc)
-		return map[string]any{"err": err != nil}, nil
+		ms := time.Since(t0).Milliseconds()
+		runtime.ReadMemStats(&m1)
+		return map[string]any{"err": err != nil, "alloc": m1.TotalAlloc - m0.TotalAlloc, "ms": ms}, nil
 	}
 }
 
@@ -1453,28 +1460,35 @@ func (c *c14Run) malformedText(keep []*c14J) {
 			}
 		}
 	}
-	// deep nesting: beyond the JSON library's limit; must be an error, never a crash
-	depths := []int{10001, 20000, 100000}
+	// deep nesting: an error deep inside a nested document (here: beyond the JSON
+	// library's depth limit, or simply unterminated) must come back as an error,
+	// quickly and with memory proportional to the input, never as a crash.
+	depths := []int{3000, 10001}
 	if r.Thorough() {
-		depths = append(depths, 1000000)
+		depths = append(depths, 100000, 1000000)
 	}
 	for _, n := range depths {
-		for _, open := range []string{"[", `{"type":"array","items":`, `{"type":"int","default":[`} {
+		for _, open := range []string{"[", `{"type":"array","items":`, `{"type":"record","fields":[{"name":"a","type":`, `{"type":"int","default":[`} {
 			doc := strings.Repeat(open, n)
-			if open == "[" {
+			if open == "[" && n%2 == 1 {
 				doc += strings.Repeat("]", n)
 			}
 			var res struct {
-				Err bool `json:"err"`
+				Err   bool   `json:"err"`
+				Alloc uint64 `json:"alloc"`
+				Ms    int64  `json:"ms"`
 			}
-			outcome, msg := isolated("c14parse", doc, &res, 60*time.Second)
+			outcome, msg := isolated("c14parse", doc, &res, 120*time.Second)
 			r.Count("malformed-text/deep-nesting/" + outcome)
-			desc := map[string]any{"kind": "deep", "open": open, "depth": n}
+			desc := map[string]any{"kind": "deep", "open": open, "depth": n, "bytes": len(doc)}
+			limit := uint64(64*len(doc) + 1<<20)
 			switch {
 			case outcome != "ok":
-				r.Fail(-1, "panic", fmt.Sprintf("SchemaFromString on %d nested %q: %s %s", n, open, outcome, msg), desc)
+				r.Fail(-1, "deep-nesting-oom", fmt.Sprintf("SchemaFromString on %d nested %q (%d bytes): %s %s", n, open, len(doc), outcome, msg), desc)
 			case !res.Err:
 				r.Fail(-1, "malformed-accepted", fmt.Sprintf("%d nested %q accepted", n, open), desc)
+			case res.Alloc > limit || res.Ms >= 2000:
+				r.Fail(-1, "deep-nesting-oom", fmt.Sprintf("SchemaFromString on %d nested %q (%d bytes) allocates %d bytes in %d ms before failing (limit %d bytes, 2000 ms)", n, open, len(doc), res.Alloc, res.Ms, limit), desc)
 			}
 		}
 	}
